@@ -3,6 +3,7 @@
   lifted to ARBITRARY schedules by induction (`run_inv`).
 -/
 import GormModel.Model.StmtCache
+import GormModel.Lemmas.StmtCacheStep
 namespace Gorm.SC
 
 /-! ### projections of the helper updates -/
@@ -22,6 +23,38 @@ namespace Gorm.SC
 theorem setPc_thr_other (s : St) (t t' : Nat) (pc : Pc) (h : t' ≠ t) : (setPc s t pc).threads t' = s.threads t' := by
   simp [setPc, h]
 
+@[simp] theorem setPc_cfg (s : St) (t : Nat) (pc : Pc) : (setPc s t pc).cfg = s.cfg := rfl
+@[simp] theorem setPc_nV (s : St) (t : Nat) (pc : Pc) : (setPc s t pc).nV = s.nV := rfl
+@[simp] theorem setPc_nM (s : St) (t : Nat) (pc : Pc) : (setPc s t pc).nM = s.nM := rfl
+@[simp] theorem setPc_ent (s : St) (t t' : Nat) (pc : Pc) : ((setPc s t pc).threads t').ent = (s.threads t').ent := by
+  simp only [setPc, upd_apply]; split <;> simp_all
+
+@[simp] theorem setEnt_nT (s : St) (t e : Nat) : (setEnt s t e).nT = s.nT := rfl
+@[simp] theorem setEnt_nE (s : St) (t e : Nat) : (setEnt s t e).nE = s.nE := rfl
+@[simp] theorem setEnt_nH (s : St) (t e : Nat) : (setEnt s t e).nH = s.nH := rfl
+@[simp] theorem setEnt_nV (s : St) (t e : Nat) : (setEnt s t e).nV = s.nV := rfl
+@[simp] theorem setEnt_nM (s : St) (t e : Nat) : (setEnt s t e).nM = s.nM := rfl
+@[simp] theorem setEnt_entries (s : St) (t e : Nat) : (setEnt s t e).entries = s.entries := rfl
+@[simp] theorem setEnt_handles (s : St) (t e : Nat) : (setEnt s t e).handles = s.handles := rfl
+@[simp] theorem setEnt_maps (s : St) (t e : Nat) : (setEnt s t e).maps = s.maps := rfl
+@[simp] theorem setEnt_views (s : St) (t e : Nat) : (setEnt s t e).views = s.views := rfl
+@[simp] theorem setEnt_log (s : St) (t e : Nat) : (setEnt s t e).log = s.log := rfl
+@[simp] theorem setEnt_cfg (s : St) (t e : Nat) : (setEnt s t e).cfg = s.cfg := rfl
+@[simp] theorem setEnt_pc (s : St) (t t' e : Nat) : ((setEnt s t e).threads t').pc = (s.threads t').pc := by
+  simp only [setEnt, upd_apply]; split <;> simp_all
+@[simp] theorem setEnt_op (s : St) (t t' e : Nat) : ((setEnt s t e).threads t').op = (s.threads t').op := by
+  simp only [setEnt, upd_apply]; split <;> simp_all
+@[simp] theorem setEnt_ent_same (s : St) (t e : Nat) : ((setEnt s t e).threads t).ent = some e := by
+  simp [setEnt]
+theorem setEnt_thr_other (s : St) (t t' e : Nat) (h : t' ≠ t) : (setEnt s t e).threads t' = s.threads t' := by
+  simp [setEnt, h]
+
+@[simp] theorem finish_cfg (s : St) (t : Nat) (r : Res) : (finish s t r).cfg = s.cfg := by
+  unfold finish; split <;> rfl
+@[simp] theorem finish_nV (s : St) (t : Nat) (r : Res) : (finish s t r).nV = s.nV := by
+  unfold finish; split <;> rfl
+@[simp] theorem finish_nM (s : St) (t : Nat) (r : Res) : (finish s t r).nM = s.nM := by
+  unfold finish; split <;> rfl
 @[simp] theorem finish_nT (s : St) (t : Nat) (r : Res) : (finish s t r).nT = s.nT := by
   unfold finish; split <;> rfl
 @[simp] theorem finish_nE (s : St) (t : Nat) (r : Res) : (finish s t r).nE = s.nE := by
@@ -68,6 +101,51 @@ theorem setPc_thr_other (s : St) (t t' : Nat) (pc : Pc) (h : t' ≠ t) : (setPc 
   · rfl
   · split <;> rfl
 
+@[simp] theorem delAt_cfg (s : St) (v q o : Nat) : (delAt s v q o).cfg = s.cfg := by
+  unfold delAt; split
+  · rfl
+  · split <;> rfl
+@[simp] theorem delAt_nV (s : St) (v q o : Nat) : (delAt s v q o).nV = s.nV := by
+  unfold delAt; split
+  · rfl
+  · split <;> rfl
+@[simp] theorem delAt_nM (s : St) (v q o : Nat) : (delAt s v q o).nM = s.nM := by
+  unfold delAt; split
+  · rfl
+  · split <;> rfl
+
+@[simp] theorem delFail_nT (s : St) (v q o : Nat) : (delFail s v q o).nT = s.nT := by unfold delFail; split <;> simp
+@[simp] theorem delFail_nE (s : St) (v q o : Nat) : (delFail s v q o).nE = s.nE := by unfold delFail; split <;> simp
+@[simp] theorem delFail_nH (s : St) (v q o : Nat) : (delFail s v q o).nH = s.nH := by unfold delFail; split <;> simp
+@[simp] theorem delFail_nV (s : St) (v q o : Nat) : (delFail s v q o).nV = s.nV := by unfold delFail; split <;> simp
+@[simp] theorem delFail_nM (s : St) (v q o : Nat) : (delFail s v q o).nM = s.nM := by unfold delFail; split <;> simp
+@[simp] theorem delFail_cfg (s : St) (v q o : Nat) : (delFail s v q o).cfg = s.cfg := by unfold delFail; split <;> simp
+@[simp] theorem delFail_entries (s : St) (v q o : Nat) : (delFail s v q o).entries = s.entries := by
+  unfold delFail; split <;> simp
+@[simp] theorem delFail_handles (s : St) (v q o : Nat) : (delFail s v q o).handles = s.handles := by
+  unfold delFail; split <;> simp
+@[simp] theorem delFail_threads (s : St) (v q o : Nat) : (delFail s v q o).threads = s.threads := by
+  unfold delFail; split <;> simp
+@[simp] theorem delFail_views (s : St) (v q o : Nat) : (delFail s v q o).views = s.views := by
+  unfold delFail; split <;> simp
+
+@[simp] theorem delEvict_nT (s : St) (v q o h : Nat) : (delEvict s v q o h).nT = s.nT := by unfold delEvict; split <;> simp
+@[simp] theorem delEvict_nE (s : St) (v q o h : Nat) : (delEvict s v q o h).nE = s.nE := by unfold delEvict; split <;> simp
+@[simp] theorem delEvict_nH (s : St) (v q o h : Nat) : (delEvict s v q o h).nH = s.nH := by unfold delEvict; split <;> simp
+@[simp] theorem delEvict_nV (s : St) (v q o h : Nat) : (delEvict s v q o h).nV = s.nV := by unfold delEvict; split <;> simp
+@[simp] theorem delEvict_nM (s : St) (v q o h : Nat) : (delEvict s v q o h).nM = s.nM := by unfold delEvict; split <;> simp
+@[simp] theorem delEvict_cfg (s : St) (v q o h : Nat) : (delEvict s v q o h).cfg = s.cfg := by unfold delEvict; split <;> simp
+@[simp] theorem delEvict_entries (s : St) (v q o h : Nat) : (delEvict s v q o h).entries = s.entries := by
+  unfold delEvict; split <;> simp
+@[simp] theorem delEvict_handles (s : St) (v q o h : Nat) : (delEvict s v q o h).handles = s.handles := by
+  unfold delEvict; split <;> simp
+@[simp] theorem delEvict_threads (s : St) (v q o h : Nat) : (delEvict s v q o h).threads = s.threads := by
+  unfold delEvict; split <;> simp
+@[simp] theorem delEvict_views (s : St) (v q o h : Nat) : (delEvict s v q o h).views = s.views := by
+  unfold delEvict; split <;> simp
+
+@[simp] theorem markAll_cfg (s : St) (m : Nat) : (markAll s m).cfg = s.cfg := rfl
+@[simp] theorem markAll_nV (s : St) (m : Nat) : (markAll s m).nV = s.nV := rfl
 @[simp] theorem markAll_nT (s : St) (m : Nat) : (markAll s m).nT = s.nT := rfl
 @[simp] theorem markAll_nE (s : St) (m : Nat) : (markAll s m).nE = s.nE := rfl
 @[simp] theorem markAll_nH (s : St) (m : Nat) : (markAll s m).nH = s.nH := rfl
@@ -88,6 +166,8 @@ theorem setPc_thr_other (s : St) (t t' : Nat) (pc : Pc) (h : t' ≠ t) : (setPc 
 @[simp] theorem markAll_text (s : St) (m e : Nat) : ((markAll s m).entries e).text = (s.entries e).text := by
   simp only [markAll]; split <;> rfl
 
+@[simp] theorem markView_cfg (s : St) (v : Nat) : (markView s v).cfg = s.cfg := by unfold markView; split <;> rfl
+@[simp] theorem markView_nV (s : St) (v : Nat) : (markView s v).nV = s.nV := by unfold markView; split <;> rfl
 @[simp] theorem markView_nT (s : St) (v : Nat) : (markView s v).nT = s.nT := by unfold markView; split <;> rfl
 @[simp] theorem markView_nE (s : St) (v : Nat) : (markView s v).nE = s.nE := by unfold markView; split <;> rfl
 @[simp] theorem markView_nH (s : St) (v : Nat) : (markView s v).nH = s.nH := by unfold markView; split <;> rfl
@@ -108,19 +188,89 @@ theorem setPc_thr_other (s : St) (t t' : Nat) (pc : Pc) (h : t' ≠ t) : (setPc 
 @[simp] theorem markView_text (s : St) (v e : Nat) : ((markView s v).entries e).text = (s.entries e).text := by
   unfold markView; split <;> simp
 
-/-! ### lifting a step invariant to arbitrary schedules -/
 
-theorem run_inv (P : St → Prop) (hstep : ∀ s a s', P s → act s a = some s' → P s')
-    (s : St) (sched : List Act) (h0 : P s) : P (run s sched) := by
-  induction sched generalizing s with
-  | nil => simpa [run] using h0
-  | cons a rest ih =>
-    simp only [run, List.foldl_cons]
-    cases hact : act s a with
-    | none => simpa [run] using ih s h0
-    | some s' => simpa [run] using ih s' (hstep s a s' h0 hact)
+/-! ### more projections -/
 
-/-! ### I1: every unprepared entry has a running owner (owners never wait) -/
+theorem pc_cases (s : St) (t t' : Nat) (pc : Pc) :
+    ((setPc s t pc).threads t').pc = if t' = t then pc else (s.threads t').pc := by
+  simp only [setPc, upd_apply]; split <;> rfl
+
+theorem finish_pc (s : St) (t t' : Nat) (r : Res) :
+    ((finish s t r).threads t').pc = if t' = t then .fin r else (s.threads t').pc := by
+  simp [pc_cases]
+@[simp] theorem finish_op (s : St) (t t' : Nat) (r : Res) : ((finish s t r).threads t').op = (s.threads t').op := by
+  simp
+@[simp] theorem finish_ent (s : St) (t t' : Nat) (r : Res) : ((finish s t r).threads t').ent = (s.threads t').ent := by
+  simp
+@[simp] theorem finish_h_tx (s : St) (t h : Nat) (r : Res) : ((finish s t r).handles h).tx = (s.handles h).tx := by
+  unfold finish; split <;> (try rfl); simp only []; split <;> rfl
+@[simp] theorem finish_h_thr (s : St) (t h : Nat) (r : Res) : ((finish s t r).handles h).thr = (s.handles h).thr := by
+  unfold finish; split <;> (try rfl); simp only []; split <;> rfl
+@[simp] theorem finish_h_entry (s : St) (t h : Nat) (r : Res) : ((finish s t r).handles h).entry = (s.handles h).entry := by
+  unfold finish; split <;> (try rfl); simp only []; split <;> rfl
+@[simp] theorem finish_h_closeReq (s : St) (t h : Nat) (r : Res) :
+    ((finish s t r).handles h).closeReq = (s.handles h).closeReq := by
+  unfold finish; split <;> (try rfl); simp only []; split <;> rfl
+theorem finish_h_closed (s : St) (t h : Nat) (r : Res) (hc : (s.handles h).closed = true) :
+    ((finish s t r).handles h).closed = true := by
+  unfold finish; split <;> (try exact hc); simp only []; split <;> simp_all
+theorem finish_h_closed_rev (s : St) (t h : Nat) (r : Res) (hc : ((finish s t r).handles h).closed = false) :
+    (s.handles h).closed = false := by
+  cases h0 : (s.handles h).closed with
+  | false => rfl
+  | true => rw [finish_h_closed s t h r h0] at hc; cases hc
+theorem finish_h_closed_nontx (s : St) (t h : Nat) (r : Res) (hx : (s.handles h).tx = false) :
+    ((finish s t r).handles h).closed = (s.handles h).closed := by
+  unfold finish; split <;> (try rfl); simp only []; split <;> simp_all
+
+@[simp] theorem setWait_pc (s : St) (t t' e : Nat) :
+    ((setWait s t e).threads t').pc = if t' = t then .waiting e else (s.threads t').pc := by
+  simp [setWait, pc_cases]
+@[simp] theorem setWait_op (s : St) (t t' e : Nat) : ((setWait s t e).threads t').op = (s.threads t').op := by
+  simp [setWait]
+theorem setWait_ent (s : St) (t t' e : Nat) :
+    ((setWait s t e).threads t').ent = if t' = t then some e else (s.threads t').ent := by
+  simp only [setWait, setPc_ent, setEnt, upd_apply]; split <;> simp_all
+@[simp] theorem setWait_nT (s : St) (t e : Nat) : (setWait s t e).nT = s.nT := rfl
+@[simp] theorem setWait_nE (s : St) (t e : Nat) : (setWait s t e).nE = s.nE := rfl
+@[simp] theorem setWait_nH (s : St) (t e : Nat) : (setWait s t e).nH = s.nH := rfl
+@[simp] theorem setWait_nV (s : St) (t e : Nat) : (setWait s t e).nV = s.nV := rfl
+@[simp] theorem setWait_nM (s : St) (t e : Nat) : (setWait s t e).nM = s.nM := rfl
+@[simp] theorem setWait_entries (s : St) (t e : Nat) : (setWait s t e).entries = s.entries := rfl
+@[simp] theorem setWait_handles (s : St) (t e : Nat) : (setWait s t e).handles = s.handles := rfl
+@[simp] theorem setWait_maps (s : St) (t e : Nat) : (setWait s t e).maps = s.maps := rfl
+@[simp] theorem setWait_views (s : St) (t e : Nat) : (setWait s t e).views = s.views := rfl
+@[simp] theorem setWait_log (s : St) (t e : Nat) : (setWait s t e).log = s.log := rfl
+@[simp] theorem setWait_cfg (s : St) (t e : Nat) : (setWait s t e).cfg = s.cfg := rfl
+
+@[simp] theorem publish_nT (s : St) (t v m q : Nat) (tx : Bool) : (publish s t v m q tx).nT = s.nT := rfl
+@[simp] theorem publish_nE (s : St) (t v m q : Nat) (tx : Bool) : (publish s t v m q tx).nE = s.nE + 1 := rfl
+@[simp] theorem publish_nH (s : St) (t v m q : Nat) (tx : Bool) : (publish s t v m q tx).nH = s.nH := rfl
+@[simp] theorem publish_nV (s : St) (t v m q : Nat) (tx : Bool) : (publish s t v m q tx).nV = s.nV := rfl
+@[simp] theorem publish_nM (s : St) (t v m q : Nat) (tx : Bool) : (publish s t v m q tx).nM = s.nM := rfl
+@[simp] theorem publish_cfg (s : St) (t v m q : Nat) (tx : Bool) : (publish s t v m q tx).cfg = s.cfg := rfl
+@[simp] theorem publish_handles (s : St) (t v m q : Nat) (tx : Bool) : (publish s t v m q tx).handles = s.handles := rfl
+@[simp] theorem publish_views (s : St) (t v m q : Nat) (tx : Bool) : (publish s t v m q tx).views = s.views := rfl
+@[simp] theorem publish_entries (s : St) (t v m q : Nat) (tx : Bool) :
+    (publish s t v m q tx).entries = upd s.entries s.nE { text := q, mapId := m, owner := t, view := v, tx := tx } := rfl
+@[simp] theorem publish_maps (s : St) (t v m q : Nat) (tx : Bool) :
+    (publish s t v m q tx).maps = upd s.maps m (upd (s.maps m) q (some s.nE)) := rfl
+theorem publish_log (s : St) (t v m q : Nat) (tx : Bool) :
+    (publish s t v m q tx).log = (match s.maps m q with
+                         | some e' => [.prep m q tx s.nE, .removed m q e' .overwrite]
+                         | none => [.prep m q tx s.nE]) ++ s.log := rfl
+@[simp] theorem publish_pc (s : St) (t t' v m q : Nat) (tx : Bool) :
+    ((publish s t v m q tx).threads t').pc = if t' = t then .preparing s.nE else (s.threads t').pc := by
+  simp [publish, pc_cases]
+@[simp] theorem publish_op (s : St) (t t' v m q : Nat) (tx : Bool) :
+    ((publish s t v m q tx).threads t').op = (s.threads t').op := by
+  simp [publish]
+theorem publish_ent (s : St) (t t' v m q : Nat) (tx : Bool) :
+    ((publish s t v m q tx).threads t').ent = if t' = t then some s.nE else (s.threads t').ent := by
+  simp only [publish, setPc_ent, setEnt, upd_apply]; split <;> simp_all
+
+
+/-! ### SHAPE: what a goroutine's program counter says about the entry / handle it mentions; owner uniqueness -/
 
 /-- thread at `pc` is the preparer of entry `e` and has not yet closed `e.prepared` -/
 def owns (pc : Pc) (e : Nat) : Prop :=
@@ -132,206 +282,345 @@ def owns (pc : Pc) (e : Nat) : Prop :=
   | .closingErr e' => e' = e
   | _ => False
 
-def Own (s : St) : Prop :=
-  ∀ e, e < s.nE → (s.entries e).prepared = false → ∃ t, t < s.nT ∧ owns (s.threads t).pc e
+/-- thread at `pc` holds a copy of the prepared statement `h` of entry `e` -/
+def holds (pc : Pc) (e h : Nat) : Prop := pc = .ready e h ∨ pc = .using e h ∨ pc = .evicting e h
 
-theorem own_of_frame (s s' : St) (t : Nat) (h : Own s)
-    (hT : s'.nT = s.nT) (ht : t < s.nT)
-    (hthr : ∀ t', t' ≠ t → (s'.threads t').pc = (s.threads t').pc)
-    (hnew : ∀ e, e < s'.nE → (s'.entries e).prepared = false →
-        (e < s.nE ∧ (s.entries e).prepared = false) ∨ owns (s'.threads t).pc e)
-    (hkeep : ∀ e, owns (s.threads t).pc e → owns (s'.threads t).pc e ∨ (s'.entries e).prepared = true) :
-    Own s' := by
-  intro e he hp
-  rcases hnew e he hp with ⟨he0, hp0⟩ | hown
-  · obtain ⟨t0, ht0, ho⟩ := h e he0 hp0
-    by_cases htt : t0 = t
-    · subst htt
-      rcases hkeep e ho with h1 | h1
-      · exact ⟨t0, by omega, h1⟩
-      · rw [h1] at hp; cases hp
-    · exact ⟨t0, by omega, by rw [hthr t0 htt]; exact ho⟩
-  · exact ⟨t, by omega, hown⟩
+def TS (s : St) (t : Nat) : Prop :=
+  let pc := (s.threads t).pc
+  (∀ e, pc = .waiting e → e < s.nE ∧ (s.threads t).ent = some e) ∧
+  (∀ e, owns pc e → e < s.nE ∧ (s.entries e).owner = t ∧ (s.entries e).prepared = false ∧ (s.threads t).ent = some e) ∧
+  (∀ e, pc = .preparing e → (s.entries e).err = false ∧ (s.entries e).handle = none) ∧
+  (∀ e h, pc = .storing e h → (s.entries e).err = false ∧ (s.entries e).handle = none ∧ h < s.nH ∧
+      (s.handles h).entry = e ∧ (s.handles h).thr = t) ∧
+  (∀ e, pc = .failing e ∨ pc = .closingErr e → (s.entries e).err = true ∧ (s.entries e).handle = none) ∧
+  (∀ e h, pc = .closingOk e h → (s.entries e).err = false ∧ (s.entries e).handle = some h ∧ h < s.nH ∧
+      (s.handles h).entry = e) ∧
+  (∀ e h, holds pc e h → e < s.nE ∧ (s.entries e).prepared = true ∧ (s.entries e).err = false ∧
+      (s.entries e).handle = some h ∧ (s.threads t).ent = some e) ∧
+  ((pc = .init ∨ pc = .missed) → (s.threads t).ent = none) ∧
+  (∀ r, pc = .fin r → ∀ e, (s.threads t).ent = some e → e < s.nE ∧ (s.entries e).prepared = true ∧
+      ((s.entries e).err = true ↔ r = .prepErr))
 
-theorem stepUse_own (s s' : St) (t : Nat) (a : Ans) (v q : Nat) (tx : Bool) (ht : t < s.nT) (h : Own s)
-    (hs : stepUse s t a v q tx (s.threads t).pc = some s') : Own s' := by
-  cases hpc : (s.threads t).pc <;> rw [hpc] at hs <;> simp only [stepUse] at hs
-  all_goals (repeat' split at hs)
-  all_goals first
-    | (cases hs; done)
-    | (simp only [Option.some.injEq] at hs; subst hs
-       apply own_of_frame s _ t h
-       · simp [publish]
-       · exact ht
-       · intro t' ht'; simp [setPc_thr_other, ht', publish]
-       · intro e he hp
-         simp_all [upd_apply, owns, publish]
-         all_goals (try split at hp) <;> (try simp_all) <;> (try omega)
-       · intro e ho
-         simp_all [owns])
+/-- every unprepared entry has a running owner, and the owner is the goroutine recorded at publication -/
+def OwnG (s : St) : Prop :=
+  ∀ e, e < s.nE → (s.entries e).prepared = false → (s.entries e).owner < s.nT ∧ owns (s.threads (s.entries e).owner).pc e
 
-theorem stepReset_own (s s' : St) (t v : Nat) (ht : t < s.nT) (h : Own s)
-    (hs : stepReset s t v (s.threads t).pc = some s') : Own s' := by
-  cases hpc : (s.threads t).pc <;> rw [hpc] at hs <;> simp only [stepReset] at hs
-  all_goals first
-    | (cases hs; done)
-    | (simp only [Option.some.injEq] at hs; subst hs
-       apply own_of_frame s _ t h
-       · simp
-       · exact ht
-       · intro t' ht'; simp [setPc_thr_other, ht']
-       · intro e he hp; simp_all [owns]
-       · intro e ho; simp_all [owns])
+def Shape (s : St) : Prop := (∀ t, TS s t) ∧ OwnG s
 
-theorem stepClose_own (s s' : St) (t v : Nat) (ht : t < s.nT) (h : Own s)
-    (hs : stepClose s t v (s.threads t).pc = some s') : Own s' := by
-  cases hpc : (s.threads t).pc <;> rw [hpc] at hs <;> simp only [stepClose] at hs
-  all_goals first
-    | (cases hs; done)
-    | (simp only [Option.some.injEq] at hs; subst hs
-       apply own_of_frame s _ t h
-       · simp
-       · exact ht
-       · intro t' ht'; simp [setPc_thr_other, ht']
-       · intro e he hp; simp_all [owns]
-       · intro e ho; simp_all [owns])
+/-- frame: a step that leaves thread `t'` alone and does not touch the TS-relevant fields of allocated entries/handles -/
+theorem TS_frame (s s' : St) (t' : Nat) (h : TS s t')
+    (hthr : s'.threads t' = s.threads t') (hnE : s.nE ≤ s'.nE) (hnH : s.nH ≤ s'.nH)
+    (hE : ∀ e, e < s.nE → (s'.entries e).owner = (s.entries e).owner ∧ (s'.entries e).prepared = (s.entries e).prepared ∧
+        (s'.entries e).err = (s.entries e).err ∧ (s'.entries e).handle = (s.entries e).handle)
+    (hH : ∀ x, x < s.nH → (s'.handles x).entry = (s.handles x).entry ∧ (s'.handles x).thr = (s.handles x).thr) :
+    TS s' t' := by
+  obtain ⟨h1, h2, h3, h4, h5, h6, h7, h8, h9⟩ := h
+  unfold TS
+  simp only [hthr]
+  refine ⟨?_, ?_, ?_, ?_, ?_, ?_, ?_, h8, ?_⟩
+  · intro e he; have := h1 e he; exact ⟨by omega, this.2⟩
+  · intro e he; have := h2 e he; have hh := hE e this.1
+    exact ⟨by omega, by rw [hh.1]; exact this.2.1, by rw [hh.2.1]; exact this.2.2.1, this.2.2.2⟩
+  · intro e he; have := h3 e he; have hh := hE e (h2 e (by simp [owns, he])).1
+    exact ⟨by rw [hh.2.2.1]; exact this.1, by rw [hh.2.2.2]; exact this.2⟩
+  · intro e x he; have := h4 e x he; have hh := hE e (h2 e (by simp [owns, he])).1
+    have hx := hH x this.2.2.1
+    exact ⟨by rw [hh.2.2.1]; exact this.1, by rw [hh.2.2.2]; exact this.2.1, by omega, by rw [hx.1]; exact this.2.2.2.1,
+      by rw [hx.2]; exact this.2.2.2.2⟩
+  · intro e he; have := h5 e he
+    have hh := hE e (h2 e (by rcases he with he | he <;> simp [owns, he])).1
+    exact ⟨by rw [hh.2.2.1]; exact this.1, by rw [hh.2.2.2]; exact this.2⟩
+  · intro e x he; have := h6 e x he; have hh := hE e (h2 e (by simp [owns, he])).1
+    have hx := hH x this.2.2.1
+    exact ⟨by rw [hh.2.2.1]; exact this.1, by rw [hh.2.2.2]; exact this.2.1, by omega, by rw [hx.1]; exact this.2.2.2⟩
+  · intro e x he; have := h7 e x he; have hh := hE e this.1
+    exact ⟨by omega, by rw [hh.2.1]; exact this.2.1, by rw [hh.2.2.1]; exact this.2.2.1, by rw [hh.2.2.2]; exact this.2.2.2.1,
+      this.2.2.2.2⟩
+  · intro r hr e he; have := h9 r hr e he; have hh := hE e this.1
+    exact ⟨by omega, by rw [hh.2.1]; exact this.2.1, by rw [hh.2.2.1]; exact this.2.2⟩
 
-theorem act_own (s : St) (a : Act) (s' : St) (h : Own s) (hs : act s a = some s') : Own s' := by
-  cases a with
-  | thr t an =>
-    simp only [act] at hs
-    split at hs
-    · rename_i ht
-      unfold tstep at hs
-      split at hs
-      · exact stepReset_own s s' t _ ht h hs
-      · exact stepClose_own s s' t _ ht h hs
-      · exact stepUse_own s s' t an _ _ _ ht h hs
-    · cases hs
-  | closeE e =>
-    simp only [act] at hs
-    split at hs
-    · split at hs <;>
-      · simp only [Option.some.injEq] at hs; subst hs
-        intro e' he' hp'
-        have : (s.entries e').prepared = false := by
-          simp only [upd_apply] at hp'; split at hp' <;> simp_all
-        exact h e' he' this
-    · cases hs
-  | closeH hh =>
-    simp only [act] at hs
-    split at hs
-    · simp only [Option.some.injEq] at hs; subst hs
-      exact h
-    · cases hs
+/-- frame: the owner `t` of entry `e0` rewrites `e0` (keeping its ghost owner); any OTHER thread's shape survives -/
+theorem TS_frame_owner (s s' : St) (t t' e0 : Nat) (x : Entry) (h : TS s t') (ht : TS s t) (hne : t' ≠ t)
+    (hown : owns (s.threads t).pc e0) (hx : x.owner = (s.entries e0).owner)
+    (hthr : s'.threads t' = s.threads t') (hnE : s'.nE = s.nE) (hnH : s'.nH = s.nH)
+    (hE : s'.entries = upd s.entries e0 x)
+    (hH : ∀ y, (s'.handles y).entry = (s.handles y).entry ∧ (s'.handles y).thr = (s.handles y).thr) : TS s' t' := by
+  have ho := ht.2.1 e0 hown
+  obtain ⟨h1, h2, h3, h4, h5, h6, h7, h8, h9⟩ := h
+  have hoth : ∀ e, owns (s.threads t').pc e → e ≠ e0 := by
+    intro e he heq; subst heq; have := (h2 e he).2.1; rw [ho.2.1] at this; exact hne this.symm
+  unfold TS
+  simp only [hthr, hE, hnE, hnH, fun y => (hH y).1, fun y => (hH y).2]
+  refine ⟨h1, ?_, ?_, ?_, ?_, ?_, ?_, h8, ?_⟩
+  · intro e he; have := h2 e he; have hn := hoth e he; simpa [upd, hn] using this
+  · intro e he; have hn := hoth e (by simp [owns, he]); simpa [upd, hn] using h3 e he
+  · intro e y he; have hn := hoth e (by simp [owns, he]); simpa [upd, hn] using h4 e y he
+  · intro e he; have hn := hoth e (by rcases he with he | he <;> simp [owns, he]); simpa [upd, hn] using h5 e he
+  · intro e y he; have hn := hoth e (by simp [owns, he]); simpa [upd, hn] using h6 e y he
+  · intro e y he; have := h7 e y he
+    have hn : e ≠ e0 := by intro heq; subst heq; rw [ho.2.2.1] at this; exact absurd this.2.1 (by simp)
+    simpa [upd, hn] using this
+  · intro r hr e he; have := h9 r hr e he
+    have hn : e ≠ e0 := by intro heq; subst heq; rw [ho.2.2.1] at this; exact absurd this.2.1 (by simp)
+    simpa [upd, hn] using this
 
-/-- I1 holds in every state reachable by ANY schedule -/
-theorem own_reachable (ops : List Op) (nV : Nat) (sched : List Act) : Own (run (init ops nV) sched) := by
-  apply run_inv Own act_own
-  intro e he; simp [init] at he
 
-/-! ### Reset/Close threads are either not started or finished -/
+theorem owns_fun (pc : Pc) (e e' : Nat) (h : owns pc e) (h' : owns pc e') : e = e' := by
+  cases pc <;> simp_all [owns]
 
-def OpPc (s : St) : Prop :=
-  ∀ t, (∀ v, (s.threads t).op = .reset v ∨ (s.threads t).op = .close v →
-    (s.threads t).pc = .init ∨ isFin s t = true)
+theorem shape_thread_only (s s' : St) (t : Nat) (hS : Shape s) (hnT : s'.nT = s.nT) (hnE : s'.nE = s.nE) (hnH : s'.nH = s.nH)
+    (hthr : ∀ t', t' ≠ t → s'.threads t' = s.threads t')
+    (hE : ∀ e, (s'.entries e).owner = (s.entries e).owner ∧ (s'.entries e).prepared = (s.entries e).prepared ∧
+        (s'.entries e).err = (s.entries e).err ∧ (s'.entries e).handle = (s.entries e).handle)
+    (hH : ∀ x, (s'.handles x).entry = (s.handles x).entry ∧ (s'.handles x).thr = (s.handles x).thr)
+    (hnew : TS s' t) (hown : ∀ e, owns (s.threads t).pc e → owns (s'.threads t).pc e) : Shape s' := by
+  refine ⟨fun t' => ?_, ?_⟩
+  · by_cases htt : t' = t
+    · subst htt; exact hnew
+    · exact TS_frame s s' t' (hS.1 t') (hthr t' htt) (by omega) (by omega) (fun e _ => hE e) (fun x _ => hH x)
+  · intro e he hp
+    rw [hnE] at he
+    rw [(hE e).2.1] at hp
+    obtain ⟨h1, h2⟩ := hS.2 e he hp
+    rw [(hE e).1, hnT]
+    refine ⟨h1, ?_⟩
+    by_cases htt : (s.entries e).owner = t
+    · rw [htt] at h2 ⊢; exact hown e h2
+    · rw [hthr _ htt]; exact h2
 
-theorem threads_frame (s s' : St) (a : Act) (hs : act s a = some s') :
-    s'.nT = s.nT ∧ (∀ t, (s'.threads t).op = (s.threads t).op) ∧
-    (∀ t, (s'.threads t).pc = (s.threads t).pc ∨
-      (∃ an, a = .thr t an) ∧ ((∀ v, (s.threads t).op ≠ .reset v ∧ (s.threads t).op ≠ .close v) ∨ isFin s' t = true)) := by
-  cases a with
-  | thr t an =>
-    simp only [act] at hs
-    split at hs
-    · unfold tstep at hs
-      split at hs
-      · rename_i v hop
-        cases hpc : (s.threads t).pc <;> rw [hpc] at hs <;> simp only [stepReset] at hs
-        all_goals first
-          | (cases hs; done)
-          | (simp only [Option.some.injEq] at hs; subst hs
-             refine ⟨by simp, fun t' => by simp, fun t' => ?_⟩
-             by_cases htt : t' = t
-             · subst htt; right; exact ⟨⟨an, rfl⟩, Or.inr (by simp [isFin])⟩
-             · left; simp [setPc_thr_other, htt])
-      · rename_i v hop
-        cases hpc : (s.threads t).pc <;> rw [hpc] at hs <;> simp only [stepClose] at hs
-        all_goals first
-          | (cases hs; done)
-          | (simp only [Option.some.injEq] at hs; subst hs
-             refine ⟨by simp, fun t' => by simp, fun t' => ?_⟩
-             by_cases htt : t' = t
-             · subst htt; right; exact ⟨⟨an, rfl⟩, Or.inr (by simp [isFin])⟩
-             · left; simp [setPc_thr_other, htt])
-      · rename_i v q tx hop
-        cases hpc : (s.threads t).pc <;> rw [hpc] at hs <;> simp only [stepUse] at hs
-        all_goals (repeat' split at hs)
-        all_goals first
-          | (cases hs; done)
-          | (simp only [Option.some.injEq] at hs; subst hs
-             refine ⟨by simp [publish], fun t' => by simp [publish], fun t' => ?_⟩
-             by_cases htt : t' = t
-             · subst htt; right; exact ⟨⟨_, rfl⟩, Or.inl (by simp [hop])⟩
-             · left; simp [setPc_thr_other, htt, publish])
-    · cases hs
-  | closeE e =>
-    simp only [act] at hs
-    split at hs
-    · split at hs <;>
-      · simp only [Option.some.injEq] at hs; subst hs
-        exact ⟨rfl, fun _ => rfl, fun _ => Or.inl rfl⟩
-    · cases hs
-  | closeH hh =>
-    simp only [act] at hs
-    split at hs
-    · simp only [Option.some.injEq] at hs; subst hs
-      exact ⟨rfl, fun _ => rfl, fun _ => Or.inl rfl⟩
-    · cases hs
+theorem shape_owner_step (s s' : St) (t e0 : Nat) (x : Entry) (hS : Shape s)
+    (hown : owns (s.threads t).pc e0) (hx : x.owner = (s.entries e0).owner)
+    (hnT : s'.nT = s.nT) (hnE : s'.nE = s.nE) (hnH : s'.nH = s.nH)
+    (hthr : ∀ t', t' ≠ t → s'.threads t' = s.threads t')
+    (hE : s'.entries = upd s.entries e0 x)
+    (hH : ∀ y, (s'.handles y).entry = (s.handles y).entry ∧ (s'.handles y).thr = (s.handles y).thr)
+    (hnew : TS s' t) (hown' : x.prepared = false → owns (s'.threads t).pc e0) : Shape s' := by
+  have ho := (hS.1 t).2.1 e0 hown
+  refine ⟨fun t' => ?_, ?_⟩
+  · by_cases htt : t' = t
+    · subst htt; exact hnew
+    · exact TS_frame_owner s s' t t' e0 x (hS.1 t') (hS.1 t) htt hown hx (hthr t' htt) hnE hnH hE hH
+  · intro e he hp
+    rw [hnE] at he
+    rw [hnT, hE]
+    by_cases hee : e = e0
+    · subst hee
+      rw [hE] at hp
+      simp only [upd_same] at hp ⊢
+      rw [hx, ho.2.1]
+      have := hS.2 e he ho.2.2.1
+      rw [ho.2.1] at this
+      exact ⟨this.1, hown' hp⟩
+    · rw [hE] at hp
+      simp only [upd, hee, if_false] at hp ⊢
+      obtain ⟨h1, h2⟩ := hS.2 e he hp
+      refine ⟨h1, ?_⟩
+      by_cases htt : (s.entries e).owner = t
+      · rw [htt] at h2; exact absurd (owns_fun _ _ _ h2 hown) hee
+      · rw [hthr _ htt]; exact h2
 
-theorem act_opPc (s : St) (a : Act) (s' : St) (h : OpPc s) (hs : act s a = some s') : OpPc s' := by
-  obtain ⟨_, hop, hpc⟩ := threads_frame s s' a hs
-  intro t v hv
-  rw [hop t] at hv
-  rcases hpc t with h1 | ⟨_, h2 | h2⟩
-  · rcases h t v hv with h3 | h3
-    · left; rw [h1]; exact h3
-    · right; simp only [isFin] at h3 ⊢; rw [h1]; exact h3
-  · rcases hv with hv | hv
-    · exact absurd hv (h2 v).1
-    · exact absurd hv (h2 v).2
-  · right; exact h2
 
-theorem opPc_reachable (ops : List Op) (nV : Nat) (sched : List Act) : OpPc (run (init ops nV) sched) := by
-  apply run_inv OpPc act_opPc
-  intro t v _; left; simp [init]
+theorem markView_owner (s : St) (v e : Nat) : ((markView s v).entries e).owner = (s.entries e).owner := by
+  unfold markView; split <;> (try rfl); simp only [markAll]; split <;> rfl
 
-/-- the enabledness half of deadlock freedom: a thread that is not finished and not enabled is a
-    waiter on an unprepared entry -/
-theorem blocked_is_waiter (s : St) (t : Nat) (ht : t < s.nT) (hw : OpPc s) (hf : isFin s t = false)
-    (hb : ∀ a, act s (.thr t a) = none) :
-    ∃ e, (s.threads t).pc = .waiting e ∧ (s.entries e).prepared = false := by
-  have hb' := hb .ok
-  simp only [act, ht, if_true, tstep] at hb'
-  cases hop : (s.threads t).op with
-  | reset v =>
-    rw [hop] at hb'; simp only at hb'
-    rcases hw t v (Or.inl hop) with h1 | h1
-    · rw [h1] at hb'; simp [stepReset] at hb'
-    · rw [h1] at hf; cases hf
-  | close v =>
-    rw [hop] at hb'; simp only at hb'
-    rcases hw t v (Or.inr hop) with h1 | h1
-    · rw [h1] at hb'; simp [stepClose] at hb'
-    · rw [h1] at hf; cases hf
-  | use v q tx =>
-    rw [hop] at hb'; simp only at hb'
-    cases hpc : (s.threads t).pc <;> rw [hpc] at hb' <;> simp only [stepUse] at hb'
-    all_goals (repeat' split at hb')
-    all_goals first
-      | (cases hb'; done)
-      | (simp [isFin, hpc] at hf; done)
-      | simp_all
+def MapRng (s : St) : Prop := ∀ m q e, s.maps m q = some e → e < s.nE
+
+theorem step_shape (s s' : St) (hS : Shape s) (hR : MapRng s) (hs : Step s s') : Shape s' := by
+  cases hs with
+  | hit t v q tx m e ht hop hpc hv hm hu =>
+    have hT := hS.1 t
+    refine shape_thread_only s _ t hS rfl rfl rfl (fun t' h => by simp [setWait, setPc_thr_other, setEnt_thr_other, h])
+      (fun e => by simp) (fun x => by simp) ?_ ?_
+    · have := hR _ _ _ hm
+      unfold TS; simp [setWait_ent, owns, holds]; exact this
+    · intro e' ho; rcases hpc with hpc | hpc <;> simp [hpc, owns] at ho
+  | miss t v q tx ht hop hpc =>
+    have hT := hS.1 t
+    refine shape_thread_only s _ t hS rfl rfl rfl (fun t' h => by simp [setPc_thr_other, h])
+      (fun e => by simp) (fun x => by simp) ?_ ?_
+    · have := hT.2.2.2.2.2.2.2.1 (Or.inl hpc)
+      unfold TS; simp [pc_cases, owns, holds]; exact this
+    · intro e' ho; simp [hpc, owns] at ho
+  | invalid t v q tx ht hop hpc hv =>
+    have hT := hS.1 t
+    refine shape_thread_only s _ t hS (by simp) (by simp) (by simp) (fun t' h => by simp [setPc_thr_other, h])
+      (fun e => by simp) (fun x => by simp) ?_ ?_
+    · have := hT.2.2.2.2.2.2.2.1 (Or.inr hpc)
+      unfold TS; simp [finish_pc, owns, holds, this]
+    · intro e' ho; simp [hpc, owns] at ho
+  | pub t v q tx m ht hop hpc hv hm =>
+    have hT := hS.1 t
+    refine ⟨fun t' => ?_, ?_⟩
+    · by_cases htt : t' = t
+      · subst htt
+        unfold TS; simp [publish_ent, owns, holds, upd]
+      · refine TS_frame s _ t' (hS.1 t') (by simp [publish, setPc_thr_other, setEnt_thr_other, htt]) (by simp) (by simp)
+          (fun e he => ?_) (fun x _ => by simp)
+        have : e ≠ s.nE := by omega
+        simp [upd, this]
+    · intro e he hp
+      by_cases hee : e = s.nE
+      · subst hee; simp [upd, owns, ht]
+      · have he' : e < s.nE := by simp at he; omega
+        simp only [publish_entries, upd, hee, if_false] at hp ⊢
+        obtain ⟨h1, h2⟩ := hS.2 e he' hp
+        refine ⟨by simpa using h1, ?_⟩
+        by_cases hto : (s.entries e).owner = t
+        · rw [hto, hpc] at h2; simp [owns] at h2
+        · simp [hto]; exact h2
+  | waitErr t v q tx e ht hop hpc hp he =>
+    have hT := hS.1 t
+    refine shape_thread_only s _ t hS (by simp) (by simp) (by simp) (fun t' h => by simp [setPc_thr_other, h])
+      (fun e => by simp) (fun x => by simp) ?_ ?_
+    · have := hT.1 e hpc
+      unfold TS; simp [finish_pc, owns, holds, this, hp, he]
+    · intro e' ho; simp [hpc, owns] at ho
+  | waitOk t v q tx e h ht hop hpc hp he hh =>
+    have hT := hS.1 t
+    refine shape_thread_only s _ t hS (by simp) (by simp) (by simp) (fun t' h => by simp [setPc_thr_other, h])
+      (fun e => by simp) (fun x => by simp) ?_ ?_
+    · have := hT.1 e hpc
+      unfold TS; simp [pc_cases, owns, holds, this, hp, he, hh]
+    · intro e' ho; simp [hpc, owns] at ho
+  | waitNil t v q tx e ht hop hpc hp he hh =>
+    have hT := hS.1 t
+    refine shape_thread_only s _ t hS (by simp) (by simp) (by simp) (fun t' h => by simp [setPc_thr_other, h])
+      (fun e => by simp) (fun x => by simp) ?_ ?_
+    · have := hT.1 e hpc
+      unfold TS; simp [finish_pc, owns, holds, this, hp, he]
+    · intro e' ho; simp [hpc, owns] at ho
+  | prepOk t v q tx e ht hop hpc =>
+    have hT := hS.1 t
+    have ho := hT.2.1 e (by simp [hpc, owns])
+    have h3 := hT.2.2.1 e hpc
+    refine ⟨fun t' => ?_, ?_⟩
+    · by_cases htt : t' = t
+      · subst htt
+        unfold TS; simp [pc_cases, owns, holds, upd, ho, h3]
+      · refine TS_frame s _ t' (hS.1 t') (by simp [setPc_thr_other, htt]) (by simp) (by simp)
+          (fun e he => by simp) (fun x hx => ?_)
+        have : x ≠ s.nH := by omega
+        simp [upd, this]
+    · intro e' he' hp
+      simp only [setPc_entries, setPc_nE, setPc_nT] at hp he' ⊢
+      obtain ⟨h1, h2⟩ := hS.2 e' he' hp
+      refine ⟨h1, ?_⟩
+      by_cases hto : (s.entries e').owner = t
+      · rw [hto, hpc] at h2; simp [owns] at h2; subst h2
+        simp [hto, pc_cases, owns]
+      · simp [pc_cases, hto]; exact h2
+  | prepErr t v q tx e ht hop hpc =>
+    have hT := hS.1 t
+    have ho := hT.2.1 e (by simp [hpc, owns])
+    have h3 := hT.2.2.1 e hpc
+    refine shape_owner_step s _ t e { s.entries e with err := true } hS (by simp [hpc, owns]) rfl rfl rfl rfl
+      (fun t' h => by simp [setPc_thr_other, h]) rfl (fun y => ⟨rfl, rfl⟩) ?_ ?_
+    · unfold TS; simp [pc_cases, owns, holds, upd, ho, h3]
+    · intro _; simp [pc_cases, owns]
+  | store t v q tx e h ht hop hpc =>
+    have hT := hS.1 t
+    have ho := hT.2.1 e (by simp [hpc, owns])
+    have h3 := hT.2.2.2.1 e h hpc
+    refine shape_owner_step s _ t e { s.entries e with handle := some h } hS (by simp [hpc, owns]) rfl rfl rfl rfl
+      (fun t' h => by simp [setPc_thr_other, h]) rfl (fun y => ⟨rfl, rfl⟩) ?_ ?_
+    · unfold TS; simp [pc_cases, owns, holds, upd, ho, h3]
+    · intro _; simp [pc_cases, owns]
+  | fail t v q tx e ht hop hpc =>
+    have hT := hS.1 t
+    have ho := hT.2.1 e (by simp [hpc, owns])
+    have h3 := hT.2.2.2.2.1 e (Or.inl hpc)
+    refine shape_thread_only s _ t hS (by simp) (by simp) (by simp) (fun t' h => by simp [setPc_thr_other, h])
+      (fun e => by simp) (fun x => by simp) ?_ ?_
+    · unfold TS; simp [pc_cases, owns, holds, ho, h3]
+    · intro e' ho'; simp [hpc, owns] at ho'; simp [pc_cases, owns, ho']
+  | closeOk t v q tx e h ht hop hpc =>
+    have hT := hS.1 t
+    have ho := hT.2.1 e (by simp [hpc, owns])
+    have h3 := hT.2.2.2.2.2.1 e h hpc
+    refine shape_owner_step s _ t e { s.entries e with prepared := true } hS (by simp [hpc, owns]) rfl rfl rfl rfl
+      (fun t' h => by simp [setPc_thr_other, h]) rfl (fun y => ⟨rfl, rfl⟩) ?_ ?_
+    · unfold TS; simp [pc_cases, owns, holds, upd, ho, h3]
+    · intro hh; simp at hh
+  | closeErr t v q tx e ht hop hpc =>
+    have hT := hS.1 t
+    have ho := hT.2.1 e (by simp [hpc, owns])
+    have h3 := hT.2.2.2.2.1 e (Or.inr hpc)
+    refine shape_owner_step s _ t e { s.entries e with prepared := true } hS (by simp [hpc, owns]) rfl (by simp) (by simp) (by simp)
+      (fun t' h => by simp [setPc_thr_other, h]) (by simp) (fun y => by simp) ?_ ?_
+    · unfold TS; simp [finish_pc, owns, holds, upd, ho, h3]
+    · intro hh; simp at hh
+  | readyClosed t v q e h ht hop hpc hc =>
+    have hT := hS.1 t
+    have h7 := hT.2.2.2.2.2.2.1 e h (Or.inl hpc)
+    refine shape_thread_only s _ t hS (by simp) (by simp) (by simp) (fun t' h => by simp [setPc_thr_other, h])
+      (fun e => by simp) (fun x => by simp) ?_ ?_
+    · unfold TS; simp [finish_pc, owns, holds, h7]
+    · intro e' ho; simp [hpc, owns] at ho
+  | readyUse t v q tx e h ht hop hpc =>
+    have hT := hS.1 t
+    have h7 := hT.2.2.2.2.2.2.1 e h (Or.inl hpc)
+    refine shape_thread_only s _ t hS (by simp) (by simp) (by simp) (fun t' h => by simp [setPc_thr_other, h])
+      (fun e => by simp) (fun x => by simp) ?_ ?_
+    · unfold TS; simp [pc_cases, owns, holds, h7]
+    · intro e' ho; simp [hpc, owns] at ho
+  | useFin t v q tx e h r ht hop hpc hr =>
+    have hT := hS.1 t
+    have h7 := hT.2.2.2.2.2.2.1 e h (Or.inr (Or.inl hpc))
+    refine shape_thread_only s _ t hS (by simp) (by simp) (by simp) (fun t' h => by simp [setPc_thr_other, h])
+      (fun e => by simp) (fun x => by simp) ?_ ?_
+    · unfold TS; rcases hr with hr | hr <;> simp [finish_pc, owns, holds, h7, hr]
+    · intro e' ho; simp [hpc, owns] at ho
+  | useBad t v q tx e h ht hop hpc =>
+    have hT := hS.1 t
+    have h7 := hT.2.2.2.2.2.2.1 e h (Or.inr (Or.inl hpc))
+    refine shape_thread_only s _ t hS (by simp) (by simp) (by simp) (fun t' h => by simp [setPc_thr_other, h])
+      (fun e => by simp) (fun x => by simp) ?_ ?_
+    · unfold TS; simp [pc_cases, owns, holds, h7]
+    · intro e' ho; simp [hpc, owns] at ho
+  | evict t v q tx e h ht hop hpc =>
+    have hT := hS.1 t
+    have h7 := hT.2.2.2.2.2.2.1 e h (Or.inr (Or.inr hpc))
+    refine shape_thread_only s _ t hS (by simp) (by simp) (by simp) (fun t' h => by simp [setPc_thr_other, h])
+      (fun e => by simp) (fun x => by simp [upd_apply]; split <;> simp_all) ?_ ?_
+    · unfold TS; simp [finish_pc, owns, holds, h7]
+    · intro e' ho; simp [hpc, owns] at ho
+  | reset t v ht hop hpc =>
+    have hT := hS.1 t
+    have := hT.2.2.2.2.2.2.2.1 (Or.inl hpc)
+    refine shape_thread_only s _ t hS (by simp) (by simp) (by simp) (fun t' h => by simp [setPc_thr_other, h])
+      (fun e => by simp [markView_owner]) (fun x => by simp) ?_ ?_
+    · unfold TS; simp [finish_pc, owns, holds, this]
+    · intro e' ho; simp [hpc, owns] at ho
+  | close t v ht hop hpc =>
+    have hT := hS.1 t
+    have := hT.2.2.2.2.2.2.2.1 (Or.inl hpc)
+    refine shape_thread_only s _ t hS (by simp) (by simp) (by simp) (fun t' h => by simp [setPc_thr_other, h])
+      (fun e => by simp [markView_owner]) (fun x => by simp) ?_ ?_
+    · unfold TS; simp [finish_pc, owns, holds, this]
+    · intro e' ho; simp [hpc, owns] at ho
+  | closeE e he h1 h2 h3 h4 =>
+    refine ⟨fun t' => TS_frame s _ t' (hS.1 t') rfl (Nat.le_refl _) (Nat.le_refl _)
+      (fun e' _ => by simp only [upd_apply]; split <;> simp_all) (fun x _ => ⟨rfl, rfl⟩), ?_⟩
+    intro e' he' hp
+    have : (s.entries e').prepared = false := by simp only [upd_apply] at hp; split at hp <;> simp_all
+    have := hS.2 e' he' this
+    simp only [upd_apply]; split <;> simp_all
+  | closeEH e h he h1 h2 h3 h4 =>
+    refine ⟨fun t' => TS_frame s _ t' (hS.1 t') rfl (Nat.le_refl _) (Nat.le_refl _)
+      (fun e' _ => by simp only [upd_apply]; split <;> simp_all)
+      (fun x _ => by simp only [upd_apply]; split <;> simp_all), ?_⟩
+    intro e' he' hp
+    have : (s.entries e').prepared = false := by simp only [upd_apply] at hp; split at hp <;> simp_all
+    have := hS.2 e' he' this
+    simp only [upd_apply]; split <;> simp_all
+  | closeH h hh h1 h2 =>
+    refine ⟨fun t' => TS_frame s _ t' (hS.1 t') rfl (Nat.le_refl _) (Nat.le_refl _)
+      (fun e' _ => ⟨rfl, rfl, rfl, rfl⟩)
+      (fun x _ => by simp only [upd_apply]; split <;> simp_all), ?_⟩
+    exact hS.2
+
+
+/-! ### MAPS: ids in maps are allocated and carry their ghost coordinates; fresh map objects are empty -/
 
 theorem delAt_maps_some (s : St) (v q o m q' e : Nat) (h : (delAt s v q o).maps m q' = some e) :
     s.maps m q' = some e := by
@@ -348,102 +637,88 @@ theorem delAt_maps_some (s : St) (v q o m q' e : Nat) (h : (delAt s v q o).maps 
         · simpa [upd, hq] using h
       · simpa [upd, hm] using h
 
-theorem upd2_some (f : Nat → Nat → Option Nat) (m q x m' q' e : Nat)
-    (h : upd f m (upd (f m) q (some x)) m' q' = some e) : f m' q' = some e ∨ e = x := by
-  by_cases hm : m' = m
-  · subst hm
-    by_cases hq : q' = q
-    · subst hq; simp [upd] at h; exact Or.inr h.symm
-    · left; simpa [upd, hq] using h
-  · left; simpa [upd, hm] using h
+theorem delFail_maps_some (s : St) (v q o m q' e : Nat) (h : (delFail s v q o).maps m q' = some e) :
+    s.maps m q' = some e := by
+  unfold delFail at h; split at h
+  · exact h
+  · exact delAt_maps_some _ _ _ _ _ _ _ h
 
-theorem pc_cases (s : St) (t t' : Nat) (pc : Pc) :
-    ((setPc s t pc).threads t').pc = if t' = t then pc else (s.threads t').pc := by
-  simp only [setPc, upd_apply]; split <;> rfl
+theorem delEvict_maps_some (s : St) (v q o x m q' e : Nat) (h : (delEvict s v q o x).maps m q' = some e) :
+    s.maps m q' = some e := by
+  unfold delEvict at h; split at h
+  · exact h
+  · exact delAt_maps_some _ _ _ _ _ _ _ h
 
-/-- ids reachable through the maps / held by waiters were allocated -/
-def Rng (s : St) : Prop :=
-  (∀ m q e, s.maps m q = some e → e < s.nE) ∧
-  (∀ t e, (s.threads t).pc = .waiting e → e < s.nE)
+theorem markView_mapId (s : St) (v e : Nat) : ((markView s v).entries e).mapId = (s.entries e).mapId := by
+  unfold markView; split <;> (try rfl); simp only [markAll]; split <;> rfl
+theorem markView_view (s : St) (v e : Nat) : ((markView s v).entries e).view = (s.entries e).view := by
+  unfold markView; split <;> (try rfl); simp only [markAll]; split <;> rfl
 
-theorem stepUse_rng (s s' : St) (t : Nat) (a : Ans) (v q : Nat) (tx : Bool) (h : Rng s)
-    (hs : stepUse s t a v q tx (s.threads t).pc = some s') : Rng s' := by
-  obtain ⟨h1, h2⟩ := h
-  cases hpc : (s.threads t).pc <;> rw [hpc] at hs <;> simp only [stepUse] at hs
-  all_goals (repeat' split at hs)
-  all_goals first
-    | (cases hs; done)
-    | (simp only [Option.some.injEq] at hs; subst hs
-       refine ⟨?_, ?_⟩
-       · intro m q' e' hm
-         try simp [publish] at hm
-         try simp [publish]
-         first
-           | exact h1 _ _ _ hm
-           | exact h1 _ _ _ (delAt_maps_some _ _ _ _ _ _ _ hm)
-           | (have hm' := delAt_maps_some _ _ _ _ _ _ _ hm; exact h1 _ _ _ hm')
-           | (rcases upd2_some _ _ _ _ _ _ _ hm with hm' | hm'
-              · have := h1 _ _ _ hm'; omega
-              · omega)
-       · intro t' e' hp
-         try simp [pc_cases, publish] at hp
-         try simp [publish]
-         split at hp
-         · first
-             | (cases hp; done)
-             | (simp only [Pc.waiting.injEq] at hp; subst hp; (try simp [publish]); apply h1; assumption)
-         · have := h2 _ _ hp; (try simp [publish]); omega)
+def Maps (s : St) : Prop :=
+  (∀ m q e, s.maps m q = some e → e < s.nE ∧ (s.entries e).mapId = m ∧ (s.entries e).text = q ∧ m < s.nM) ∧
+  (∀ v m, s.views v = some m → m < s.nM) ∧ 0 < s.nM
+
+theorem maps_of_frame (s s' : St) (h : Maps s) (hnE : s'.nE = s.nE) (hnM : s'.nM = s.nM) (hv : s'.views = s.views)
+    (hm : ∀ m q e, s'.maps m q = some e → s.maps m q = some e)
+    (hE : ∀ e, (s'.entries e).mapId = (s.entries e).mapId ∧ (s'.entries e).text = (s.entries e).text) : Maps s' := by
+  refine ⟨fun m q e he => ?_, fun v m hvm => ?_, by rw [hnM]; exact h.2.2⟩
+  · have := h.1 m q e (hm m q e he)
+    rw [hnE, hnM, (hE e).1, (hE e).2]; exact this
+  · rw [hv] at hvm; rw [hnM]; exact h.2.1 v m hvm
+
+theorem step_maps (s s' : St) (h : Maps s) (hs : Step s s') : Maps s' := by
+  cases hs with
+  | pub t v q tx m ht hop hpc hv hm =>
+    have hmM := h.2.1 v m hv
+    refine ⟨fun m' q' e he => ?_, fun v' m' hvm => by simpa using h.2.1 v' m' (by simpa using hvm), by simpa using h.2.2⟩
+    simp only [publish_maps, publish_nE, publish_entries, publish_nM] at he ⊢
+    by_cases hmm : m' = m
+    · subst hmm
+      by_cases hqq : q' = q
+      · subst hqq; simp [upd] at he; subst he; simp [upd, hmM]
+      · simp [upd, hqq] at he
+        have := h.1 _ _ _ he
+        have hne : e ≠ s.nE := by omega
+        simp [upd, hne]; exact ⟨by omega, this.2⟩
+    · simp [upd, hmm] at he
+      have := h.1 _ _ _ he
+      have hne : e ≠ s.nE := by omega
+      simp [upd, hne]; exact ⟨by omega, this.2⟩
+  | fail t v q tx e ht hop hpc =>
+    exact maps_of_frame s _ h (by simp) (by simp) (by simp) (fun m q' e' he => delFail_maps_some _ _ _ _ _ _ _ (by simpa using he))
+      (fun e => by simp)
+  | evict t v q tx e x ht hop hpc =>
+    exact maps_of_frame s _ h (by simp) (by simp) (by simp)
+      (fun m q' e' he => by have := delEvict_maps_some _ _ _ _ _ _ _ _ (by simpa using he); exact this)
+      (fun e => by simp)
+  | reset t v ht hop hpc =>
+    refine ⟨fun m q e he => ?_, fun v' m' hvm => ?_, by simp⟩
+    · have := h.1 m q e (by simpa using he)
+      simp [markView_mapId]; exact ⟨this.1, this.2.1, this.2.2.1, by omega⟩
+    · simp only [finish_views, upd_apply] at hvm
+      simp only [finish_nM, markView_nM]
+      split at hvm
+      · simp at hvm; omega
+      · have := h.2.1 v' m' (by simpa using hvm); omega
+  | close t v ht hop hpc =>
+    refine ⟨fun m q e he => ?_, fun v' m' hvm => ?_, by simpa using h.2.2⟩
+    · have := h.1 m q e (by simpa using he)
+      simp [markView_mapId]; exact this
+    · simp only [finish_views, upd_apply] at hvm
+      split at hvm
+      · cases hvm
+      · simpa using h.2.1 v' m' (by simpa using hvm)
+  | hit | miss | invalid | waitErr | waitOk | waitNil | prepOk | readyClosed | readyUse | useFin | useBad =>
+    exact maps_of_frame s _ h (by simp) (by simp) (by simp) (fun m q e he => by simpa using he) (fun e => by simp)
+  | prepErr | store | closeOk | closeErr | closeE | closeEH =>
+    exact maps_of_frame s _ h (by simp) (by simp) (by simp) (fun m q e he => by simpa using he)
+      (fun e => by simp only [setPc_entries, finish_entries, upd_apply]; split <;> simp_all)
+  | closeH => exact maps_of_frame s _ h rfl rfl rfl (fun m q e he => he) (fun e => ⟨rfl, rfl⟩)
+
+theorem maps_rng (s : St) (h : Maps s) : MapRng s := fun m q e he => (h.1 m q e he).1
 
 
-theorem stepRC_rng (s s' : St) (t v : Nat) (h : Rng s)
-    (hs : stepReset s t v (s.threads t).pc = some s' ∨ stepClose s t v (s.threads t).pc = some s') : Rng s' := by
-  obtain ⟨h1, h2⟩ := h
-  cases hpc : (s.threads t).pc <;> rw [hpc] at hs <;> simp only [stepReset, stepClose] at hs
-  all_goals first
-    | (rcases hs with hs | hs <;> cases hs; done)
-    | (rcases hs with hs | hs <;>
-       · simp only [Option.some.injEq] at hs; subst hs
-         refine ⟨?_, ?_⟩
-         · intro m q' e' hm
-           simp at hm; simp; exact h1 _ _ _ hm
-         · intro t' e' hp
-           simp [pc_cases] at hp
-           split at hp
-           · cases hp
-           · simp; exact h2 _ _ hp)
-
-theorem act_rng (s : St) (a : Act) (s' : St) (h : Rng s) (hs : act s a = some s') : Rng s' := by
-  cases a with
-  | thr t an =>
-    simp only [act] at hs
-    split at hs
-    · unfold tstep at hs
-      split at hs
-      · exact stepRC_rng s s' t _ h (Or.inl hs)
-      · exact stepRC_rng s s' t _ h (Or.inr hs)
-      · exact stepUse_rng s s' t an _ _ _ h hs
-    · cases hs
-  | closeE e =>
-    simp only [act] at hs
-    split at hs
-    · split at hs <;>
-      · simp only [Option.some.injEq] at hs; subst hs
-        exact h
-    · cases hs
-  | closeH hh =>
-    simp only [act] at hs
-    split at hs
-    · simp only [Option.some.injEq] at hs; subst hs
-      exact h
-    · cases hs
-
-theorem rng_reachable (ops : List Op) (nV : Nat) (sched : List Act) : Rng (run (init ops nV) sched) := by
-  apply run_inv Rng act_rng
-  constructor
-  · intro m q e h; simp [init] at h
-  · intro t e h; simp [init] at h
-
-/-- ACCOUNTING: per map object (= cache generation) and text, every PrepareContext call is matched by an entry that
+/-! ### ACCOUNTING: per map object (= cache generation) and text, every PrepareContext call is matched by an entry that
     is still in the map or by exactly one recorded removal -/
 def Acct (s : St) : Prop :=
   ∀ m q, prepCount s m q = removedCount s m q + (if (s.maps m q).isSome then 1 else 0)
@@ -477,10 +752,20 @@ theorem acct_delAt (s : St) (v q o : Nat) (h : Acct s) : Acct (delAt s v q o) :=
         simp [upd, hm, hm'] at this ⊢
         omega
 
-theorem acct_publish (s : St) (t m q : Nat) (tx : Bool) (h : Acct s) : Acct (publish s t m q tx) := by
+theorem acct_delFail (s : St) (v q o : Nat) (h : Acct s) : Acct (delFail s v q o) := by
+  unfold delFail; split
+  · exact h
+  · exact acct_delAt s v q o h
+
+theorem acct_delEvict (s : St) (v q o x : Nat) (h : Acct s) : Acct (delEvict s v q o x) := by
+  unfold delEvict; split
+  · exact h
+  · exact acct_delAt s v q o h
+
+theorem acct_publish (s : St) (t v m q : Nat) (tx : Bool) (h : Acct s) : Acct (publish s t v m q tx) := by
   intro m' q'
   have := h m' q'
-  simp only [publish, setPc_log, setPc_maps, prepCount, removedCount] at this ⊢
+  simp only [publish_log, publish_maps, prepCount, removedCount] at this ⊢
   by_cases hm : m' = m
   · subst hm
     by_cases hq : q' = q
@@ -490,53 +775,113 @@ theorem acct_publish (s : St) (t m q : Nat) (tx : Bool) (h : Acct s) : Acct (pub
   · have hm' : ¬ m = m' := fun h => hm h.symm
     cases hmq : s.maps m q <;> simp [upd, hm, hm', hmq, List.countP_cons] at this ⊢ <;> omega
 
-theorem acct_setPc (s : St) (t : Nat) (pc : Pc) (h : Acct s) : Acct (setPc s t pc) :=
-  acct_of_eq s _ h rfl rfl
-theorem acct_finish (s : St) (t : Nat) (r : Res) (h : Acct s) : Acct (finish s t r) :=
-  acct_of_eq s _ h (by simp) (by simp)
+theorem step_acct (s s' : St) (h : Acct s) (hs : Step s s') : Acct s' := by
+  cases hs with
+  | pub t v q tx m ht hop hpc hv hm => exact acct_publish s t v m q tx h
+  | fail t v q tx e ht hop hpc => exact acct_of_eq _ _ (acct_delFail s v q e h) (by simp) (by simp)
+  | evict t v q tx e x ht hop hpc =>
+    exact acct_of_eq _ _ (acct_delEvict _ v q e x
+      (acct_of_eq s { s with handles := upd s.handles x { s.handles x with closeReq := true } } h rfl rfl)) (by simp) (by simp)
+  | closeE | closeEH | closeH => exact acct_of_eq s _ h rfl rfl
+  | _ => exact acct_of_eq s _ h (by simp) (by simp)
 
-theorem act_acct (s : St) (a : Act) (s' : St) (h : Acct s) (hs : act s a = some s') : Acct s' := by
-  cases a with
-  | thr t an =>
-    simp only [act] at hs
-    split at hs
-    · unfold tstep at hs
-      split at hs
-      · cases hpc : (s.threads t).pc <;> rw [hpc] at hs <;> simp only [stepReset] at hs
-        all_goals first
-          | (cases hs; done)
-          | (simp only [Option.some.injEq] at hs; subst hs; exact acct_of_eq s _ h (by simp) (by simp))
-      · cases hpc : (s.threads t).pc <;> rw [hpc] at hs <;> simp only [stepClose] at hs
-        all_goals first
-          | (cases hs; done)
-          | (simp only [Option.some.injEq] at hs; subst hs; exact acct_of_eq s _ h (by simp) (by simp))
-      · cases hpc : (s.threads t).pc <;> rw [hpc] at hs <;> simp only [stepUse] at hs
-        all_goals (repeat' split at hs)
-        all_goals first
-          | (cases hs; done)
-          | (simp only [Option.some.injEq] at hs; subst hs
-             first
-               | (refine acct_of_eq s _ h ?_ ?_ <;> (simp; done))
-               | exact acct_publish s _ _ _ _ h
-               | exact acct_setPc _ _ _ (acct_delAt _ _ _ _ h)
-               | exact acct_finish _ _ _ (acct_delAt _ _ _ _ (acct_of_eq s _ h rfl rfl)))
-    · cases hs
-  | closeE e =>
-    simp only [act] at hs
-    split at hs
-    · split at hs <;>
-      · simp only [Option.some.injEq] at hs; subst hs
-        exact acct_of_eq s _ h rfl rfl
-    · cases hs
-  | closeH hh =>
-    simp only [act] at hs
-    split at hs
-    · simp only [Option.some.injEq] at hs; subst hs
-      exact acct_of_eq s _ h rfl rfl
-    · cases hs
+/-! ### Reset/Close threads are either not started or finished; blocked threads are waiters -/
 
-theorem acct_reachable (ops : List Op) (nV : Nat) (sched : List Act) : Acct (run (init ops nV) sched) := by
-  apply run_inv Acct act_acct
-  intro m q; simp [init, prepCount, removedCount]
+def OpPc (s : St) : Prop :=
+  ∀ t, (∀ v, (s.threads t).op = .reset v ∨ (s.threads t).op = .close v →
+    (s.threads t).pc = .init ∨ isFin s t = true)
+
+/-- every step leaves ops alone and moves at most the stepping thread's pc (to `fin` for Reset/Close) -/
+theorem step_threads (s s' : St) (hs : Step s s') :
+    s'.nT = s.nT ∧ (∀ t, (s'.threads t).op = (s.threads t).op) ∧
+    (∀ t, (s'.threads t).pc = (s.threads t).pc ∨
+      ((∀ v, (s.threads t).op ≠ .reset v ∧ (s.threads t).op ≠ .close v) ∨ isFin s' t = true)) := by
+  cases hs with
+  | reset t v ht hop hpc =>
+    refine ⟨by simp, fun t' => by simp, fun t' => ?_⟩
+    by_cases htt : t' = t
+    · subst htt; right; right; simp [isFin]
+    · left; simp [pc_cases, htt]
+  | close t v ht hop hpc =>
+    refine ⟨by simp, fun t' => by simp, fun t' => ?_⟩
+    by_cases htt : t' = t
+    · subst htt; right; right; simp [isFin]
+    · left; simp [pc_cases, htt]
+  | closeE | closeEH | closeH => exact ⟨rfl, fun _ => rfl, fun _ => Or.inl rfl⟩
+  | hit t v q tx m e ht hop | miss t v q tx ht hop | invalid t v q tx ht hop | pub t v q tx m ht hop
+  | waitErr t v q tx e ht hop | waitOk t v q tx e h ht hop | waitNil t v q tx e ht hop | prepOk t v q tx e ht hop
+  | prepErr t v q tx e ht hop | store t v q tx e h ht hop | fail t v q tx e ht hop | closeOk t v q tx e h ht hop
+  | closeErr t v q tx e ht hop | readyUse t v q tx e h ht hop
+  | useFin t v q tx e h r ht hop | useBad t v q tx e h ht hop | evict t v q tx e h ht hop =>
+    refine ⟨by simp, fun t' => by simp, fun t' => ?_⟩
+    by_cases htt : t' = t
+    · subst htt; right; left; simp [hop]
+    · left; simp [finish_pc, pc_cases, htt]
+  | readyClosed t v q e h ht hop =>
+    refine ⟨by simp, fun t' => by simp, fun t' => ?_⟩
+    by_cases htt : t' = t
+    · subst htt; right; left; simp [hop]
+    · left; simp [finish_pc, pc_cases, htt]
+
+theorem step_opPc (s s' : St) (h : OpPc s) (hs : Step s s') : OpPc s' := by
+  obtain ⟨_, hop, hpc⟩ := step_threads s s' hs
+  intro t v hv
+  rw [hop t] at hv
+  rcases hpc t with h1 | h2 | h2
+  · rcases h t v hv with h3 | h3
+    · left; rw [h1]; exact h3
+    · right; simp only [isFin] at h3 ⊢; rw [h1]; exact h3
+  · rcases hv with hv | hv
+    · exact absurd hv (h2 v).1
+    · exact absurd hv (h2 v).2
+  · right; exact h2
+
+/-- the enabledness half of deadlock freedom: a thread that is not finished and not enabled is a
+    waiter on an unprepared entry -/
+theorem blocked_is_waiter (s : St) (t : Nat) (ht : t < s.nT) (hw : OpPc s) (hf : isFin s t = false)
+    (hb : ∀ a, act s (.thr t a) = none) :
+    ∃ e, (s.threads t).pc = .waiting e ∧ (s.entries e).prepared = false := by
+  have hb' := hb .ok
+  simp only [act, ht, if_true, tstep] at hb'
+  cases hop : (s.threads t).op with
+  | reset v =>
+    rw [hop] at hb'; simp only at hb'
+    rcases hw t v (Or.inl hop) with h1 | h1
+    · rw [h1] at hb'; simp [stepReset] at hb'
+    · rw [h1] at hf; cases hf
+  | close v =>
+    rw [hop] at hb'; simp only at hb'
+    rcases hw t v (Or.inr hop) with h1 | h1
+    · rw [h1] at hb'; simp [stepClose] at hb'
+    · rw [h1] at hf; cases hf
+  | use v q tx =>
+    rw [hop] at hb'; simp only at hb'
+    cases hpc : (s.threads t).pc <;> rw [hpc] at hb' <;> simp only [stepUse] at hb'
+    all_goals (repeat' split at hb')
+    all_goals first
+      | (cases hb'; done)
+      | (simp [isFin, hpc] at hf; done)
+      | simp_all
+
+/-! ### reachable states -/
+
+def Inv1 (s : St) : Prop := Shape s ∧ Maps s ∧ Acct s ∧ OpPc s
+
+theorem step_inv1 (s s' : St) (h : Inv1 s) (hs : Step s s') : Inv1 s' :=
+  ⟨step_shape s s' h.1 (maps_rng s h.2.1) hs, step_maps s s' h.2.1 hs, step_acct s s' h.2.2.1 hs, step_opPc s s' h.2.2.2 hs⟩
+
+theorem init_inv1 (ops : List Op) (nV : Nat) (cfg : Cfg) : Inv1 (init ops nV cfg) := by
+  refine ⟨⟨fun t => ?_, ?_⟩, ⟨?_, ?_, ?_⟩, ?_, ?_⟩
+  · unfold TS; simp [init, owns, holds]
+  · intro e he; simp [init] at he
+  · intro m q e h; simp [init] at h
+  · intro v m h; simp [init] at h ⊢; omega
+  · simp [init]
+  · intro m q; simp [init, prepCount, removedCount]
+  · intro t v _; left; simp [init]
+
+theorem inv1_reachable (ops : List Op) (nV : Nat) (cfg : Cfg) (sched : List Act) :
+    Inv1 (run (init ops nV cfg) sched) :=
+  run_inv Inv1 step_inv1 _ sched (init_inv1 ops nV cfg)
 
 end Gorm.SC
